@@ -250,7 +250,7 @@ class Rig:
     def __init__(self, sim):
         self.sim = sim
         self.ev = []
-        self.T = None                   # the first timeout the code hands to Event.wait()
+        self.T = None                   # the first timeout a worker hands to Event.wait() (or time.sleep())
         self.anomalies = []
 
     def log(self, e, **kw):
@@ -268,7 +268,13 @@ def make_time(rig):
     mod.monotonic = lambda: sim.now * 1e-9
     mod.perf_counter = lambda: sim.now * 1e-9
     mod.time = lambda: sim.now * 1e-9
-    mod.sleep = lambda s: sim.sleep_ns(to_ns(s, rig.anomalies))
+
+    def sleep(s):
+        dt = to_ns(s, rig.anomalies)
+        if rig.T is None and sim.current.wid > 0:
+            rig.T = dt                  # a worker that paces itself with sleep() instead of Event.wait()
+        sim.sleep_ns(dt)
+    mod.sleep = sleep
     return mod
 
 
